@@ -359,6 +359,8 @@ def instances(tier):
         for wca in ((-1,), -2) + (((-3,), (-3, -1)) if lead else ()):
             for sal in (False, True):
                 out.append(weight_domain_instance(lead, K, N, wca, sal))
+    for lead, wca, sal in [((), 1, True), ((2, 2), 2, True), ((2, 2), (0, 3), False), ((2,), 2, True)]:
+        out.append(weight_domain_instance(lead, 2, 2, wca, sal))          # non-negative axis numbers, rank 2..4
     out.append(vmf_domain_instance((), 3, 2, 1e-10, 500.0))
     out.append(vmf_domain_instance((2,), 2, 2, 0.5, 100.0))
     out.append(watson_domain_instance((), 3, 2))
